@@ -41,7 +41,7 @@ PROPS = {
 PROPS['C20'] = dict(
     title='entry points agree',
     units=['wrap', 'depth', 'kwstack'],
-    engines=[dict(module='gvc.engine', args=dict(analyses=('stateless',)))],
+    engines=[dict(module='gvc.engine', args=dict(analyses=('stateless', 'entries')))],
     shims=['A-path/fs', 'A-str', 'A-hashmap'],
     design='DESIGN.md 3/C20',
     technique='contract-based deductive verification (Verus) of the verbatim wrapper bodies; callees carry an assumed contract attached to their real signature and keyed by parameter name',
@@ -151,7 +151,7 @@ PROPS['C07'] = dict(
     title='history independence',
     units=['kwstack'],
     engines=[dict(module='gvc.engine', args=dict(analyses=('frame', 'kwsites')))],
-    shims=['A-packrat'],
+    shims=['A-packrat', 'A-pplex'],
     design='DESIGN.md 3/C07',
     technique='frame conditions over the call graph of the real parser sources, checked modularly (least fixpoint of effect summaries), plus inventory of statics in all six crates',
     level_text='The state any call can observe besides its arguments and files is the fresh-thread state: the statics of sv-parser-parser are exactly the memo table, the directive stack and the keyword-version stack; init() empties each of them; each of the five public parser entries calls init() first; the other crates declare no static, thread_local, lazy or atomic state; at most 128 #[recursive_parser] functions exist; begin/end of directive and keyword scopes are paired on every path.',
@@ -183,7 +183,7 @@ PROPS['C15'] = dict(
 PROPS['C17'] = dict(
     title='memo transparency',
     units=[],
-    engines=[dict(module='gvc.engine', args=dict(analyses=('frame', 'kwsites'))), REPLAY],
+    engines=[dict(module='gvc.engine', args=dict(analyses=('frame', 'kwsites', 'assumed'))), REPLAY],
     shims=['A-packrat'],
     design='DESIGN.md 3/C17',
     technique='frame condition per memoised function: every thread-local it can read or write (transitively, modular fixpoint over the real call graph) must be represented in the memo key',
